@@ -145,6 +145,16 @@ class SimFS(object):
                 raise OSError(ERRNO[f[0]], os.strerror(ERRNO[f[0]]), filename)
             self.files[name] = b''       # POSIX: truncation happens at open
             h = _WriteHandle(self, name, binary)
+        elif base in ('r+', '+r'):
+            # update in place: no truncation, writes overwrite from the start of the file
+            self.opens.append(name)
+            f = self._tick('open_w', name)
+            if f is not None:
+                raise OSError(ERRNO[f[0]], os.strerror(ERRNO[f[0]]), filename)
+            if name not in self.files:
+                raise FileNotFoundError(errno.ENOENT, os.strerror(errno.ENOENT), filename)
+            h = _WriteHandle(self, name, binary)
+            h._overwrite_at = 0
         else:
             raise HarnessError('unmodelled open mode %r' % (mode,))
         self.handles.append(h)
@@ -152,6 +162,15 @@ class SimFS(object):
 
     def exists(self, filename):
         return self._name(filename) in self.files
+
+    def replace(self, name, data):
+        """Another party replaces a file by rename-over: handles that are open on the old file
+        keep reading the old bytes (POSIX keeps the inode alive), new opens see the new file."""
+        old = self.files.get(name, b'')
+        for h in self.handles:
+            if h._name == name and isinstance(h, _ReadHandle) and h._snapshot is None:
+                h._snapshot = old
+        self.files[name] = bytes(data)
 
     # convenience for the harness (not steps: the harness is not the system under test)
     def put(self, name, data):
@@ -197,8 +216,11 @@ class _ReadHandle(_Handle):
         _Handle.__init__(self, fs, name, binary)
         self._pos = 0
         self._eofs = 0
+        self._snapshot = None
 
     def _data(self):
+        if self._snapshot is not None:
+            return self._snapshot
         return self._fs.files.get(self._name, b'')
 
     def _io(self, nbytes):
@@ -283,6 +305,17 @@ class _WriteHandle(_Handle):
     def __init__(self, fs, name, binary):
         _Handle.__init__(self, fs, name, binary)
         self._buf = bytearray()
+        self._overwrite_at = None      # 'r+' handles: position of the next byte in the file
+
+    def _commit(self, chunk):
+        fs = self._fs
+        cur = fs.files.get(self._name, b'')
+        if self._overwrite_at is None:
+            fs.files[self._name] = cur + bytes(chunk)
+        else:
+            a = self._overwrite_at
+            fs.files[self._name] = cur[:a] + bytes(chunk) + cur[a + len(chunk):]
+            self._overwrite_at = a + len(chunk)
 
     def write(self, s):
         self._check()
@@ -306,10 +339,10 @@ class _WriteHandle(_Handle):
         if f is not None:
             # short write: a prefix reaches the image, the rest stays buffered, the call fails
             k = int(len(self._buf) * f[1])
-            fs.files[self._name] = fs.files.get(self._name, b'') + bytes(self._buf[:k])
+            self._commit(self._buf[:k])
             del self._buf[:k]
             raise OSError(ERRNO[f[0]], os.strerror(ERRNO[f[0]]), ROOT + self._name)
-        fs.files[self._name] = fs.files.get(self._name, b'') + bytes(self._buf)
+        self._commit(self._buf)
         self._buf = bytearray()
 
     def flush(self):
@@ -331,7 +364,7 @@ class _WriteHandle(_Handle):
                 self.closed = True
                 self._forget()
                 fs = self._fs
-                fs.files[self._name] = fs.files.get(self._name, b'') + bytes(self._buf)
+                self._commit(self._buf)
                 fs.steps_by_class['gc_close'] = fs.steps_by_class.get('gc_close', 0) + 1
         except Exception:
             pass
@@ -364,16 +397,35 @@ class Seams(object):
             if holder.fs is None:
                 raise HarnessError('no SimFS bound')
             return holder.fs.open(filename, mode, *a, **k)
-        fixed_format_file.open = sim_open
-        t2data.open = sim_open
+        import mulgrids, t2incons, t2grids
+        for mod in (fixed_format_file, t2data, t2listing, mulgrids, t2incons, t2grids):
+            mod.open = sim_open          # shadows the builtin for code defined in that module
         t2listing.io = _IOShim(holder)
-        real_exists = osp.exists
 
-        def sim_exists(path):
-            if isinstance(path, str) and path.startswith(ROOT):
-                return holder.fs.exists(path)
-            return real_exists(path)
-        osp.exists = sim_exists
+        def route(real, sim):
+            def fn(path, *a, **k):
+                if isinstance(path, str) and path.startswith(ROOT):
+                    return sim(path, *a, **k)
+                return real(path, *a, **k)
+            return fn
+        osp.exists = route(osp.exists, lambda p: holder.fs.exists(p))
+        osp.isfile = route(osp.isfile, lambda p: holder.fs.exists(p))
+        osp.isdir = route(osp.isdir, lambda p: p.rstrip('/') + '/' == ROOT)
+        osp.getsize = route(osp.getsize, lambda p: len(holder.fs.files[holder.fs._name(p)]))
+
+        def sim_remove(p):
+            name = holder.fs._name(p)
+            if name not in holder.fs.files:
+                raise FileNotFoundError(errno.ENOENT, os.strerror(errno.ENOENT), p)
+            del holder.fs.files[name]
+        os.remove = route(os.remove, sim_remove)
+        os.unlink = route(os.unlink, sim_remove)
+
+        def sim_rename(p, q):
+            fs = holder.fs
+            fs.replace(fs._name(q), fs.files.pop(fs._name(p)))
+        os.rename = route(os.rename, sim_rename)
+        os.replace = route(os.replace, sim_rename)
         self.installed = True
 
 
